@@ -70,6 +70,8 @@ func runC10(c *eng.Ctx) {
 	ruleReadonlyVerdictIsRechecked(c)
 	c.Rule("R08.9", "K3")
 	ruleCompactedSegmentsArePublishedAsTheyAreReplaced(c)
+	c.Rule("R08.10", "K4")
+	ruleSegmentListsAreNeverRewrittenInPlace(c)
 	c.Rule("R01.8", "K5")
 	ruleNoEntryAtOrBelowIsMinusOne(c)
 	c.Rule("R01.14", "K5")
@@ -145,10 +147,10 @@ func runC10(c *eng.Ctx) {
 				continue
 			}
 			for _, r := range eng.Returns(rf) {
-				if len(r.Results) == 0 {
+				if len(eng.RetVals(r)) == 0 {
 					continue
 				}
-				e := r.Results[len(r.Results)-1]
+				e := eng.RetVals(r)[len(eng.RetVals(r))-1]
 				if u, ok := eng.Strip(e).(*ssa.UnOp); ok {
 					if g, ok := u.X.(*ssa.Global); ok {
 						sent[g.Pkg.Pkg.Path()+"."+g.Name()] = true
@@ -468,6 +470,8 @@ func runC10(c *eng.Ctx) {
 
 	c.Rule("R08.6", "K2")
 	ruleReverseReaderSurvivesReplacement(c)
+	c.Rule("R11.10", "K5")
+	ruleReverseReaderOffsetMeansOneThing(c)
 	ruleDeletedSegmentReadsRecover(c)
 
 	// ---- from the repaired defects F59–F62
@@ -490,8 +494,8 @@ func checkPositionTable(c *eng.Ctx, fn *ssa.Function, api *types.Package, typ st
 	// the result variable: first result of the success return
 	var results []ssa.Value
 	for _, r := range eng.Returns(fn) {
-		if len(r.Results) == 2 && eng.NilConst(r.Results[1]) {
-			results = append(results, r.Results[0])
+		if len(eng.RetVals(r)) == 2 && eng.NilConst(eng.RetVals(r)[1]) {
+			results = append(results, eng.RetVals(r)[0])
 		}
 	}
 	for _, k := range consts {
